@@ -292,7 +292,7 @@ void exhaustive(unsigned maxlen, bool bytes = false)
     return;
   vf::set_entry(e);
   Ch const alpha_text[4] = {Ch('a'), Ch('\n'), Ch(' '), Ch('\t')};
-  Ch const alpha_bytes[4] = {static_cast<Ch>(sizeof(Ch) == 1 ? 0xFF : 0xFFFF), Ch('\n'), Ch(0), static_cast<Ch>(sizeof(Ch) == 1 ? 0x80 : 0xFF)};
+  Ch const alpha_bytes[4] = {static_cast<Ch>(sizeof(Ch) == 1 ? 0xFF : 0xFFFF), Ch('\n'), Ch(0), static_cast<Ch>(sizeof(Ch) == 1 ? 0x80 : 0x010A)}; // U+010A: low byte is '\n'
   Ch const *const alpha = bytes ? alpha_bytes : alpha_text;
   std::uint64_t idx = 0;
   for (unsigned len = 0; len <= maxlen; ++len)
@@ -327,15 +327,16 @@ void random_texts(std::uint64_t total, bool via_file)
     return;
   vf::set_entry(e);
   std::uint64_t per = total / vf::opts().nparts + 1;
-  Ch const alpha[11] = {Ch('a'), Ch('\n'), Ch(' '), Ch('\t'), Ch('\r'), Ch('b'), Ch('\n'), static_cast<Ch>(sizeof(Ch) == 1 ? 0xFF : 0xFFFF), Ch(0),
-                        static_cast<Ch>(0x80), static_cast<Ch>(0xFE)};
+  // (0x8A / U+010A / U+200A: characters that are not newlines but share the newline's low bits)
+  Ch const alpha[13] = {Ch('a'), Ch('\n'), Ch(' '), Ch('\t'), Ch('\r'), Ch('b'), Ch('\n'), static_cast<Ch>(sizeof(Ch) == 1 ? 0xFF : 0xFFFF), Ch(0),
+                        static_cast<Ch>(0x80), static_cast<Ch>(0xFE), static_cast<Ch>(sizeof(Ch) == 1 ? 0x8A : 0x010A), static_cast<Ch>(sizeof(Ch) == 1 ? 0x1A : 0x200A)};
   for (std::uint64_t h = 0; h < per; ++h)
   {
     vf::rng g(vf::seed_for(e, h));
     std::size_t len = g.below(via_file ? 200 : 60) + 1;
     Str t;
     for (std::size_t k = 0; k < len; ++k)
-      t += alpha[g.below(11)];
+      t += alpha[g.below(13)];
     if (!vf::begin_case("seed=%" PRIu64 " part=%u h=%" PRIu64 " text=\"%s\"", vf::opts().seed, vf::opts().part, h, narrow_show(t).c_str()))
       continue;
     vf::sample_case(1);
